@@ -4,7 +4,7 @@ import os
 INFO = {
     "level": "model_checking",
     "bounds": {
-        "quick": "range expressions: 1-D templates of <= 3 pieces and 2-D templates of <= 3 outer elements over number tokens that stand for symbolic integers in [0,5] (utils.auto_int stubbed "
+        "quick": "range expressions: 1-D templates of <= 3 pieces and 2-D templates of <= 3 outer elements over number tokens that stand for integers in [0,4] (3 tokens: [0,3], more: [0,2]) (utils.auto_int stubbed "
                  "for the tokens), through unravel, unravel_2d and both input forms of _process_ranges; notation: two symbolic digits in decimal, 0x, 0o, 0b, upper/lower case; host:port and "
                  "URIs: hosts {name, IPv4, ::1, 2001:db8::1}, ports symbolic in [0,4] u [65532,65535] or none, addresses symbolic in windows, an integer-valued parameter symbolic; hsfz, doip, isotp",
         "thorough": "tokens in [0,8], larger windows",
@@ -17,7 +17,7 @@ INFO = {
 
 def obligations(tier, scratch):
     quick = tier == "quick"
-    hi = 5 if quick else 8
+    hi = 4 if quick else 8
     path = os.path.join(scratch, "gen_c20.py")
     src = ["from checks.c20_lib import ranges_1d, ranges_2d, notation, hostport, uri_roundtrip", ""]
     obs = []
@@ -31,7 +31,9 @@ def obligations(tier, scratch):
 
     def rfun(name, template, call):
         ts = toks(template)
-        h = hi if len(ts) < 4 else (3 if len(ts) == 4 else 2)
+        h = hi if len(ts) < 3 else (3 if len(ts) == 3 else 2)
+        if not quick:
+            h = hi if len(ts) < 3 else (5 if len(ts) == 3 else 3)
         params = ", ".join(f"{t.lower()}: int" for t in ts)
         pres = "\n".join(f"    pre: 0 <= {t.lower()} <= {h}" for t in ts)
         env = "{" + ", ".join(f"{t!r}: {t.lower()}" for t in ts) + "}"
@@ -52,15 +54,17 @@ def {name}({params}) -> bool:
     for i, t in enumerate(["A:B", "A:B-C", "A-B:C", "A:B A:C", "A", "A:B A", "A A:B", "0-1:C D:E", "1-2:C D:E", "2-1:C D:E", "A,B:C", "A:B,C", "A-B"]):
         rfun(f"r2_{i}", t, f"ranges_2d({t!r}, {{env}})")
     for kind, im, jm in (("hex", 15, 15), ("oct", 7, 7), ("bin", 1, 1), ("dec", 9, 9)):
-        name = f"notation_{kind}"
-        add(name, f'''
+        for q in range(4 if im >= 7 else 1):
+            lo, hi_ = ((im + 1) * q // 4, (im + 1) * (q + 1) // 4 - 1) if im >= 7 else (0, im)
+            name = f"notation_{kind}_q{q}"
+            add(name, f'''
 def {name}(i: int, j: int, upper: bool) -> bool:
     """
-    pre: 0 <= i <= {im} and 0 <= j <= {jm}
+    pre: {lo} <= i <= {hi_} and 0 <= j <= {jm}
     post: _
     """
     return notation({kind!r}, i, j, upper)
-''', {"notation": kind, "digits": "two symbolic digits", "case": "symbolic"})
+''', {"notation": kind, "first_digit": [lo, hi_], "digits": "two symbolic digits", "case": "symbolic"})
     hosts = [("name", "ecu-gw.example"), ("v4", "192.0.2.7"), ("v6lo", "::1"), ("v6", "2001:db8::1")]
     win = "(0 <= port <= 4 or 65532 <= port <= 65535)"
     for tag, host in hosts:
